@@ -107,6 +107,39 @@ def r07c(model: Model, rr: RuleResult):
         rr.bad(f2, f2.node, f"{fn}: gradient ids are not unique per document", construct=f"{fn}: id")
 
 
+@RULES.rule("C07", "R07f", "SVG document records are emitted in increasing start-glyph order", floor=2)
+def r07f(model: Model, rr: RuleResult):
+    svg_doclist_order(model, rr)
+
+
+def svg_doclist_order(model: Model, rr: RuleResult):
+    # picosvg: monotone by construction -- glyphs are renumbered consecutively in the order of the group list that also drives emission (R02d),
+    # with the un-moved prefix (.notdef first) before them
+    gg = model.func("svg", "_glyph_groups")
+    rets = [st for st in walk_body(gg) if isinstance(st, ast.Return)]
+    if rets and norm(rets[0].value) == "initial_glyphs + reuse_groups.sorted()":
+        rr.ok("picosvg: groups = (.notdef first) + sorted groups; gids are assigned in that order, documents emitted in that order")
+    else:
+        rr.bad(gg, gg.node, "group list is no longer (.notdef group) + sorted groups", construct="_glyph_groups: return")
+    # untouched svg: one document per colour glyph; the iteration must be in glyph id order
+    rf = model.func("svg", "_rawsvg_docs")
+    loops = [st for st in walk_body(rf) if isinstance(st, ast.For)]
+    mk = model.func("svg", "make_svg_table")
+    resorted = any(isinstance(st, ast.Assign) and norm(st.targets[0]).endswith(".docList") and "sorted(" in norm(st.value) for st in walk_body(mk)) or \
+        any(callee_tail(c) == "sort" and "doc_list" in norm(c.func) for c in calls_in(rf)) or any(callee_tail(c) == "sort" and "doc_list" in norm(c.func) for c in calls_in(mk))
+    ok = False
+    if loops:
+        it = loops[0].iter
+        if isinstance(it, ast.Call) and norm(it.func) == "sorted" and kwarg(it, "key") is not None and "glyph_id" in norm(kwarg(it, "key")):
+            ok = True
+    if ok or resorted:
+        rr.ok("untouched svg: documents are emitted in glyph id order")
+    else:
+        rr.bad(rf, loops[0] if loops else rf.node, "untouched-SVG documents are emitted in input order, but a source that maps to an already existing glyph "
+               "(a coloured .notdef listed after other glyphs) has a smaller glyph id than its predecessors: SVG document records are not sorted by start glyph",
+               construct="_rawsvg_docs: documents in input order")
+
+
 @RULES.rule("C07", "R07d", "cross-glyph reuse goes through <defs> (no glyph element references content inside another glyph)", floor=2)
 def r07d(model: Model, rr: RuleResult):
     fi = model.func("svg", "_add_glyph")
@@ -193,6 +226,23 @@ def r07e(model: Model, rr: RuleResult):
         rr.ok("locations are consecutive (start, end) pairs sized by each glyph's own record")
     else:
         rr.bad(o, o.node, "bitmap data offsets are not consecutive per-glyph (start, end) pairs", construct="_cbdt_bitmapdata_offsets body")
+    # maximum_color's re-sharding (_copy_cbdt) must cut runs by the TARGET's glyph ids: the table lives in the target font
+    cc = model.func("glue_together", "_copy_cbdt")
+    donor_gid = [n for n in walk_body(cc) if isinstance(n, ast.Attribute) and n.attr in ("getGlyphID", "getReverseGlyphMap", "getGlyphOrder", "getGlyphName")
+                 and norm(n.value) == "donor"]
+    target_gid = [c for c in calls_in(cc) if norm(c.func) == "target.getGlyphID"]
+    if donor_gid:
+        rr.bad(cc, donor_gid[0], f"_copy_cbdt consults the donor's glyph ids ({short(donor_gid[0])}): runs are cut where the DONOR has gaps, but the strikes are "
+               f"compiled against the target's glyph order", construct=f"_copy_cbdt: {short(donor_gid[0])}")
+    elif len(target_gid) >= 3:
+        rr.ok("_copy_cbdt: run splitting and min/max use the target's glyph ids only")
+    else:
+        rr.unknown("_copy_cbdt: glyph id look-ups not in the enumerated shape")
+    wl = [st for st in ast.walk(cc.node) if isinstance(st, ast.While) and "+ 1" in norm(st.test)]
+    if wl and "len(new_order) > end" in norm(wl[0].test):
+        rr.ok("_copy_cbdt: a run is extended while the next target gid is the previous + 1")
+    else:
+        rr.bad(cc, cc.node, "_copy_cbdt no longer splits runs at gid gaps", construct="_copy_cbdt: run predicate")
     r = model.func("bitmap_tables", "_cbdt_record_size")
     if "_CBDT_SMALL_METRIC_PNG_HEADER_SIZE + len(image_data)" in norm(r.body[-1]):
         hs = model.mod("bitmap_tables").const("_CBDT_SMALL_METRIC_PNG_HEADER_SIZE")
